@@ -147,6 +147,8 @@ def run(case, ctx):
         m.chips[xy].core_image[c] = b"old-image"
         m.set_core(xy, c, M.WAIT, a)
         pre_any.add((xy, c))
+        # the same core may be listed twice: the later entry is its state
+        prewaiting.discard((xy, c))
         if a == app_id:
             prewaiting.add((xy, c))
     attempts = [0] * len(images)
